@@ -9,20 +9,4 @@ impl vstd::std_specs::convert::FromSpecImpl<hyper::Error> for ConnectionError {
 impl From<hyper::Error> for ConnectionError {
     fn from(e: hyper::Error) -> (r: ConnectionError) { ConnectionError::Hyper(e) }
 }
-
-/// one poll of a sniffer in state `rv` reported verdict `v` and handed out the rewind `rw` (a relation that names
-/// the event; what it means for the client's bytes is unit `sniff`: rv.h2 / rv.h1 / rv.rewind)
-pub uninterp spec fn decided<I>(rv: ReadVersion<I>, v: HttpProtocol, rw: Rewind<I>) -> bool;
-
-impl<I> ReadVersion<I> {
-    /// `impl Future for ReadVersion` - PROVED in unit `sniff` (under its state invariant); restated here as a
-    /// stand-in: a cancelled sniffer reports `Interrupted` and changes nothing (rv.cancel); `Pending` keeps the
-    /// cancel flag (rv.pending).
-    #[verifier::external_body]
-    pub fn poll(&mut self, cx: &mut Context<'_>) -> (r: Poll<Result<(HttpProtocol, Rewind<I>), io::Error>>)
-        ensures
-            old(self).cancelled ==> (r matches Poll::Ready(Err(e)) && err_kind(e) == io::ErrorKind::Interrupted) && *final(self) == *old(self),
-            r matches Poll::Ready(Ok((v, rw))) ==> decided(*old(self), v, rw),
-            r is Pending ==> final(self).cancelled == old(self).cancelled,
-    { unimplemented!() }
-}
+// `ReadVersion::poll` is no longer restated here: unit `upgradable` imports the contract unit `sniff` proves (`//@ import`)
